@@ -1,8 +1,9 @@
 """C06 - cw3: each ballot is one eligible voter's weight from the proposal's own snapshot."""
 from ..engine import show, OPTION
-from ..idioms import dispatch, entry_points, update_base, loaded_from, field_of, nf, walk
+from ..idioms import dispatch, entry_points, update_base, loaded_from, field_of, nf, walk, order_facts
+from ..prims import is_rmw
 from .cw3common import (SENDER, BLOCK, HEIGHT, CS, IS_EXPIRED, STATUS, VOTE, CONTRACTS, status, items, exec_paths,
-                        is_expired_cond)
+                        is_expired_cond, cs_is_passed, cs_not_passed, stored_status_in, cs_term)
 
 ID = "C06"
 RULES = {
@@ -76,7 +77,7 @@ def run(ctx):
                     # a vote
                     n_vote += 1
                     pid = None
-                    good = e.op == "update" and e.key[0] == "tuple" and len(e.key[1]) == 2 and e.key[1][1] == SENDER
+                    good = is_rmw(e) and e.op != "remove" and e.key[0] == "tuple" and len(e.key[1]) == 2 and e.key[1][1] == SENDER
                     if good:
                         pid = e.key[1][0]
                         good = any(c[0] == e.old and c[1] == "None" for c in p.conds) and e.value[0] == "struct"
@@ -92,16 +93,14 @@ def run(ctx):
                     if stored is None:
                         ctx.ob("R06.2", key + "/admission", False, detail="vote recorded without loading the proposal it is cast on", sites=[e.site])
                         continue
-                    g1 = any(c[0][0] == "call" and c[0][1].endswith("contains") and c[1] is True and c[3] <= i
-                             and c[0][2][1] == ("field", stored, "status") and c[0][2][0][0] == "list"
-                             and set(c[0][2][0][1]) <= {status("Open"), status("Passed"), status("Rejected")} for c in p.conds)
+                    g1 = stored_status_in(ctx, p, stored, ("Open", "Passed", "Rejected"), before=i)
                     g2 = is_expired_cond(p, ("field", stored, "expires"), False, before=i)
                     ctx.ob("R06.2", key + "/admission", g1 and g2, sites=[e.site],
                            detail="ballot recorded without the guards (status in {Open,Passed,Rejected}: %s, not expired: %s)" % (g1, g2),
                            sample={"guards": [g1, g2]})
                     # provenance
-                    ge1 = any(c[0][0] == "cmp" and c[0][1] == "le" and c[0][2] == ("lit", 1) and c[0][3] == W and c[1] is True for c in p.conds) \
-                        or any(c[0][0] == "cmp" and c[0][1] == "lt" and c[0][2] == ("lit", 0) and c[0][3] == W and c[1] is True for c in p.conds)
+                    ge1 = any(hi == W and ((lo == ("lit", 1) and not strict) or (lo == ("lit", 0) and strict) or (lo == ("lit", 1) and strict))
+                              for lo, hi, strict, c in order_facts(p.conds, before=i))
                     if crate == "cw3_fixed_multisig":
                         lf = loaded_from(W)
                         good = lf is not None and lf[0] == VOTERS and lf[1] == SENDER
@@ -213,8 +212,11 @@ def check_fixed_instantiate(ctx, it):
                     for x in walk(e.value):
                         if x[0] == "vfield" and x[2] == "Some" and x[1][0] == "calli" and x[1][1] == "next":
                             el = x
-                    if e.value != ("field", el, "weight") and not (e.op == "update"):
+                    if e.value != ("field", el, "weight") and not is_rmw(e):
                         prob = "weight stored %s is not the list element's weight" % show(e.value)[:120]
+                    elif is_rmw(e) and e.op != "remove":
+                        if not any(c[0] == e.old and c[1] == "None" for c in p.conds):
+                            prob = "the write to VOTERS is not insert-if-absent (an existing entry is overwritten)"
                     elif e.op == "save":
                         # overwrite: a repeated address is summed twice but stored once, unless rejected beforehand
                         idx = p.effects.index(ent)
